@@ -84,7 +84,8 @@ def run(ctx, eng):
             last = conds[-1]
             if last in name_rej:
                 seen.add(last)
-            elif last in val_rej and V1 in conds:
+            elif last in val_rej:
+                # (an empty value cannot reach the subscript: ESC decides)
                 seen.add(last)
             else:
                 bad.append('rejects under %s' % last)
@@ -95,10 +96,11 @@ def run(ctx, eng):
             if len(ys) != 1 or cm.show0(ys[0].value) != HDR:
                 bad.append('header not passed on unchanged')
             neg_names = {'not ' + c for c in name_rej}
-            if not neg_names <= set(conds):
+            # an empty field has nothing around it
+            if 'not ' + N0 not in conds and not neg_names <= set(conds):
                 bad.append('an accepted name was not tested at both ends')
-            if V1 in conds and not {'not ' + c for c in val_rej} <= \
-                    set(conds):
+            if 'not ' + V1 not in conds and \
+                    not {'not ' + c for c in val_rej} <= set(conds):
                 bad.append('an accepted non-empty value was not tested at '
                            'both ends')
     ctx.ob('ORD.clause', fi.qual, 'surrounding whitespace is refused',
